@@ -66,6 +66,14 @@ def facts(core, client, serializers, nameserver, s):
             out["routes"].append({"name": name, "eq": bool(v == u) and str(v) == txt})
         except Exception as x:
             out["routes"].append({"name": name, "eq": False, "error": type(x).__name__})
+        if CATCHALL[0]:
+            # the application has registered a converter for "every other object" (for the base class of all classes) later on:
+            # uris and proxies still travel as what they are
+            try:
+                v = ser.loads(ser.dumps([u]))[0]
+                out["routes"].append({"name": name + "+catchall", "eq": isinstance(v, core.URI) and bool(v == u)})
+            except Exception as x:
+                out["routes"].append({"name": name + "+catchall", "eq": False, "error": type(x).__name__})
         try:
             p = client.Proxy(u)
             q = ser.loads(ser.dumps(p))
@@ -86,6 +94,9 @@ MADE_IDS = [("plain", "obj"), ("plain", "Some.Object-1_x"), ("generated", None),
             ("at_start", "@obj"), ("space_inside", "stock level"), ("space_end", "obj "), ("space_start", " obj"), ("tab", "a\tb"),
             ("newline", "a\nb"), ("colon", "a:b"), ("slash", "a/b"), ("unicode", "objét-中"), ("dots", "..."), ("percent", "a%40b"),
             ("brackets", "[::1]"), ("at_colon", "x@host:99"), ("comma", "a,b"), ("empty", "")]
+
+
+CATCHALL = [False]
 
 
 def made_uris(core, serializers):
@@ -128,6 +139,10 @@ def made_uris(core, serializers):
     return out
 
 
+def generic_to_dict(obj):
+    return {"__class__": "harness.props.c19.Anything", "text": repr(obj)[:40]}
+
+
 def run(ctx):
     from Pyro5 import core, client, serializers, nameserver
     ctx.rule = ("cases = every abstract text of URI.tla (protocol x object shape x location shape x port form; 2048 after dropping impossible "
@@ -143,6 +158,8 @@ def run(ctx):
     traces, seen = [], set()
     groups = {}
     agree = 0
+    serializers.SerializerBase.register_class_to_dict(object, generic_to_dict)
+    CATCHALL[0] = True
     for c in cases:
         for variant in range(ctx.pick(3, 8)):
             s = concretise(c["text"], rng, variant)
@@ -211,6 +228,8 @@ def run(ctx):
     for i in (5, len(cases), len(traces) - 1):
         ctx.sample(traces[i])
     traces += made
+    CATCHALL[0] = False
+    serializers.SerializerBase.unregister_class_to_dict(object)
     verdicts, _ = tlc.validate(ctx, "Trace_URI", traces, cfg="Trace_URI.cfg", batch=8000)
     for tr, v in zip(traces, verdicts):
         if v:
